@@ -62,6 +62,9 @@ var (
 	Mode     = envStr("VERIF_MODE", "std")
 	Scale    = envFloat("VERIF_SCALE", 1.0) // multiplies case counts (used by sensitivity runs)
 	FoundDir = envStr("VERIF_FOUND", "/verif/replays/found")
+	// ThorScale multiplies every test's thorough case count (measured: the thorough tier at scale 1
+	// finishes in seconds for most properties, so the default explores 5x deeper)
+	ThorScale = envInt("VERIF_THOR_SCALE", 5)
 )
 
 func envStr(k, d string) string {
@@ -282,7 +285,7 @@ func Check[C any](t *testing.T, p Prop[C]) {
 
 	n := p.Quick
 	if Thorough() {
-		n = p.Thor
+		n = p.Thor * ThorScale
 	}
 	n = int(float64(n)*Scale) / Shards
 	if n < 1 {
